@@ -11,8 +11,9 @@
    - `store` with nargs="+" consumes every following token up to the next "-"-initial token
      (pattern `A+` is greedy: that is why a content path written after `-a url` is swallowed),
      at least one;
-   - the single optional positional (nargs="?") takes the first argument token that no option
-     consumed; a second such token is "unrecognized arguments" (error);
+   - the single positional (nargs="?" optional, or nargs=None required) takes the first argument
+     token that no option consumed; a second such token is "unrecognized arguments" (error); a
+     required positional that got no token is an error;
    - a dest that occurs twice keeps the last value; absent dests keep their defaults.
    The parser is a token-at-a-time state machine, so that it composes over `++`. *)
 From Coq Require Import String List Bool Ascii Arith.
@@ -74,16 +75,23 @@ Definition defaults (table : list argspec) : namespace := fold_left add_default 
 Definition find_flag (table : list argspec) (f : string) : option argspec :=
   find (fun a => negb (a_positional a) && mem_str f (a_flags a)) table.
 
-(* the dest of THE optional positional, when the table has exactly one positional and it is
-   `store` with nargs="?" *)
-Definition positional_dest (table : list argspec) : option string :=
+(* THE positional, when the table has exactly one and it is `store` with nargs="?" (optional) or
+   nargs=None (required): (dest, required) *)
+Definition positional_spec (table : list argspec) : option (string * bool) :=
   match filter a_positional table with
   | [a] => match a_action a, a_nargs a with
-           | ActStore, NOpt => Some (a_dest a)
+           | ActStore, NOpt => Some (a_dest a, false)
+           | ActStore, NNone => Some (a_dest a, true)
            | _, _ => None
            end
   | _ => None
   end.
+
+Definition positional_dest (table : list argspec) : option string :=
+  match positional_spec table with Some (d, _) => Some d | None => None end.
+
+Definition positional_required (table : list argspec) : bool :=
+  match positional_spec table with Some (_, r) => r | None => false end.
 
 Definition choice_ok (a : argspec) (tok : string) : bool :=
   match a_choices a with
@@ -161,4 +169,9 @@ Definition finish (st : pstate) : presult :=
 
 (* parse_args of the sub-parser on the tokens that follow `create` *)
 Definition parse (table : list argspec) (toks : list string) : presult :=
-  finish (run table toks).
+  match run table toks with
+  | St ns m used =>
+      (* "the following arguments are required" *)
+      if positional_required table && negb used then PR_error else finish (St ns m used)
+  | st => finish st
+  end.
